@@ -16,7 +16,7 @@ from common import substream, sha1, run_eval
 PROPERTY = "C07"
 LEVEL = "fault_enumeration"
 
-FORMS = ("throw_str", "throw_obj", "throw_err", "null_prop", "call_nonfn", "undef_ident")
+FORMS = ("throw_str", "throw_obj", "throw_err", "null_prop", "call_nonfn", "undef_ident", "null_prop_mid")
 LOOPS = ("for", "while", "dowhile", "forin", "forof")
 NATIVES = ("forEach", "map", "filter", "some", "every", "find", "findIndex", "reduce", "sort",
            "getter", "setter", "valueOf", "call", "apply", "bind")
@@ -68,10 +68,16 @@ class Gen:
                 choices.append(("native", 2))
             if pf.get("labels"):
                 choices.append(("lblock", 0.5))
+            if pf.get("switch", True):
+                choices.append(("switch", 0.8))
         if ctx["fn"] + 1 < ctx["nfn"]:
             choices.append(("call", 2))
         if ctx["loops"] and (pf["abrupt_in_try"] or not ctx.get("in_try")):
-            choices += [("break", 1), ("continue", 1)]
+            choices += [("continue", 1)]
+            if not ctx.get("in_switch"):
+                # an unlabelled break inside a switch targets the switch (generated as the
+                # case's trailing break), not the loop
+                choices += [("break", 1)]
         if ctx.get("lblocks") and (pf["abrupt_in_try"] or not ctx.get("in_try")):
             choices.append(("breakl", 0.7))
         if (pf["abrupt_in_try"] or not ctx.get("in_try")) and (pf["ret_in_finally"] or not ctx.get("in_finally")):
@@ -106,6 +112,19 @@ class Gen:
             n = rng.randrange(1 if kind == "dowhile" else 0, 4)
             c2 = dict(ctx, loops=ctx["loops"] + [(lid, label, bool(ctx.get("in_try")))])
             return {"t": "loop", "id": lid, "kind": kind, "n": n, "label": label, "b": self.block(depth + 1, c2)}
+        if name == "switch":
+            sid = self.nid()
+            ncases = rng.randrange(1, 4)
+            tests = rng.sample([0, 1, 2, 3], ncases)
+            if rng.random() < 0.5:
+                # default last: a default clause placed before other cases is taken without
+                # testing them on the pinned tree (a C05 matter, outside this property)
+                tests[-1] = None
+            c2 = dict(ctx, in_switch=True)
+            brk_ok = pf["abrupt_in_try"] or not ctx.get("in_try")
+            cases = [{"test": t, "b": self.block(depth + 1, c2, rng.randrange(1, 3)),
+                      "brk": bool(brk_ok and rng.random() < 0.6)} for t in tests]
+            return {"t": "switch", "id": sid, "v": rng.randrange(0, 4), "cases": cases}
         if name == "lblock":
             lid = self.nid()
             c2 = dict(ctx, lblocks=ctx.get("lblocks", []) + ["B%d" % lid])
@@ -175,6 +194,9 @@ def _thr(form, k):
         return "(d(%d) ? 1 : F)();" % k
     if form == "undef_ident":
         return "if (d(%d)) undef_ident_%d;" % (k, k)
+    if form == "null_prop_mid":
+        # the TypeError is raised in mid-expression, with operands of enclosing expressions pending
+        return "pv(%d, id2(4, 5 + [3, (d(%d) ? null : O).x][1]));" % (k, k)
     raise AssertionError(form)
 
 
@@ -214,6 +236,13 @@ def r_stmt(s, ind=""):
             return "%svar i%d=-1;\n%s%sfor (var q%d of %s) {\n%si%d++;\n%s\n%s}" % (ind, i, ind, lab, i, arr, i2, i, body, ind)
     if t == "lblock":
         return "%s%s: {\n%s\n%s}" % (ind, s["label"], r_block(s["b"], i2), ind)
+    if t == "switch":
+        out = "%sswitch (%d) {\n" % (ind, s["v"])
+        for c in s["cases"]:
+            out += "%s%s\n%s\n" % (i2, ("case %d:" % c["test"]) if c["test"] is not None else "default:", r_block(c["b"], i2 + "  "))
+            if c["brk"]:
+                out += "%s  break;\n" % i2
+        return out + ind + "}"
     if t in ("break", "continue"):
         kw = t + ((" " + s["label"]) if s.get("label") else "")
         if s.get("cond") is not None and s.get("loop") is not None:
@@ -311,7 +340,7 @@ class Model:
                 raise JSThrow("obj:%d" % k, None)
             if form == "throw_err":
                 raise JSThrow("Error|E%d" % k, "E%d" % k)
-            if form in ("null_prop", "call_nonfn"):
+            if form in ("null_prop", "call_nonfn", "null_prop_mid"):
                 raise JSThrow("TypeError|TypeError|true", None)
             if form == "undef_ident":
                 raise JSThrow("ReferenceError|ReferenceError|true", "undef_ident_%d" % k)
@@ -336,6 +365,8 @@ class Model:
             self.log.append(["p", s["k"]])
         elif t == "d":
             self.d(s)
+            if s["form"] == "null_prop_mid":
+                self.log.append(["pv", s["k"], 6])
         elif t == "try":
             self.do_try(s, env)
         elif t == "loop":
@@ -346,6 +377,16 @@ class Model:
             except _Break as b:
                 if b.label != s["label"]:
                     raise
+        elif t == "switch":
+            cases = s["cases"]
+            start = next((i for i, c in enumerate(cases) if c["test"] == s["v"]), None)
+            if start is None:
+                start = next((i for i, c in enumerate(cases) if c["test"] is None), None)
+            if start is not None:
+                for c in cases[start:]:
+                    self.block(c["b"], env)
+                    if c["brk"]:
+                        break
         elif t == "break":
             if s.get("cond") is None or s.get("loop") is None or env["iters"].get(s["loop"]) == s["cond"]:
                 raise _Break(s.get("label"))
@@ -709,6 +750,9 @@ def _walk(stmts, fn, path=()):
             _walk(s["b"], fn, path + ("loop:" + s["kind"],))
         elif t == "lblock":
             _walk(s["b"], fn, path + ("lblock",))
+        elif t == "switch":
+            for c in s["cases"]:
+                _walk(c["b"], fn, path + ("switch",))
         elif t == "native":
             _walk(s["b"], fn, path + ("native:" + s["kind"],))
 
@@ -741,7 +785,7 @@ def features(case, res=None):
         elif t == "d":
             if s["k"] in fired:
                 feats.add("fault:" + s["form"])
-                ctxp = [p for p in inside if not p.startswith("loop") and p != "lblock"]
+                ctxp = [p for p in inside if not p.startswith("loop") and p not in ("lblock", "switch")]
                 feats.add("fault@" + (">".join(ctxp) if ctxp else "plain"))
             else:
                 feats.add("d")
@@ -755,6 +799,8 @@ def features(case, res=None):
             feats.add("call:" + s["ctx"])
         elif t == "lblock":
             feats.add("lblock")
+        elif t == "switch":
+            feats.add("switch")
     for f in prog["funcs"]:
         _walk(f["b"], visit, ("fn%d" % f["id"],) if f["id"] else ())
     feats = {x.replace("fn1>", "fn>").replace("fn2>", "fn>") for x in feats}
@@ -789,6 +835,9 @@ def _blocks(prog):
                     rec(s["f"])
             elif t in ("loop", "lblock", "native"):
                 rec(s["b"])
+            elif t == "switch":
+                for c in s["cases"]:
+                    rec(c["b"])
     for f in prog["funcs"]:
         rec(f["b"])
     return out
@@ -920,6 +969,10 @@ def valid(prog):
             elif t == "lblock":
                 if not rec(s["b"], loops, labels + [s["label"]], fn):
                     return False
+            elif t == "switch":
+                for c in s["cases"]:
+                    if not rec(c["b"], loops, labels, fn):
+                        return False
             elif t == "native":
                 if not rec(s["b"], [], [], fn):
                     return False
